@@ -131,6 +131,7 @@ class PipeOut(E.EnvClass):
             I.assume_checked(pos == z3.Length(chunks))
             I.throw("StopAsyncIteration", "")
         E.checkpoint_nofire(I)
+        I.ghost["read_error"] = True
         raise PyRaise(I.make_exc("AnyException", V.VStr("read error")), "AnyException")
 
 
